@@ -985,11 +985,18 @@ def _seq_case(rng, key, cont, quick, variant=0):
     rng.shuffle(seq)
     calls = [["o", m, a] for m, a in seq]
     # twins and the pickled copy, inserted at random positions (the pickled copy after at least one call)
+    # (copies are asked first about data they were NOT fitted on: a fully grown tree reproduces its training
+    # labels whatever intervals / seeds it drew, so the training panel cannot tell two fits apart)
+    fresh = [p for p in pairs if p[1] in ("b", "B")] or pairs
+    fresh = [p for p in fresh if p[0] in ("predict_proba", "transform")] or fresh      # probabilities say more than labels
     extra = []
     for tw in twins:
-        for m, a in rng.sample(pairs, min(len(pairs), 2 if not (quick and key in SLOW) else 1)):
+        picks = [rng.choice(fresh)]
+        if not (quick and key in SLOW):
+            picks.append(rng.choice(pairs))
+        for m, a in picks:
             extra.append([tw, m, a])
-    for m, a in rng.sample(pairs, min(len(pairs), 2)):
+    for m, a in [rng.choice(fresh), rng.choice(pairs)]:
         extra.append(["pk", m, a])
     for x in extra:
         calls.insert(rng.randrange(1, len(calls) + 1), x)
@@ -1071,7 +1078,7 @@ def gen_cases(tier, rng):
     quick = tier == "quick"
     cases = [{"kind": "static"}]
     T = table()
-    reps = 1 if quick else 5
+    reps = 1 if quick else 8
     for key in sorted(T):
         e = T[key]
         if quick and e.get("slow"):
@@ -1083,7 +1090,7 @@ def gen_cases(tier, rng):
                 # both index kinds for forecasters even in the quick tier (the adapters' index replacement needs Int64Index)
                 cases.append(_seq_case(rng, key, cont, quick, variant=1))
     cores = ["last", "mean:none", "mean:3", "probe:2", "probe:3"]
-    for i in range(120 if quick else 1500):
+    for i in range(120 if quick else 2500):
         core = rng.choice(cores)
         mode = "r" if core.startswith("probe") and rng.random() < 0.3 else "o"
         cases.append({"kind": "run", "prop": PROP, "core": core, "mode": mode, "ops": _history12(rng, core, mode, long=not quick),
@@ -1092,7 +1099,7 @@ def gen_cases(tier, rng):
         for j in range(2 if quick else 12):
             cases.append({"kind": "run", "prop": PROP, "core": "opaque:" + name, "mode": mode, "ops": _history12(rng, "opaque:" + name, mode),
                           "shift": rng.choice([0, 7]), "range": rng.random() < 0.5})
-    for i in range(60 if quick else 800):
+    for i in range(60 if quick else 1500):
         cases.append(_hampel_case(rng))
     for i in range(8 if quick else 40):
         cases.append(_par_case(rng))
